@@ -19,7 +19,7 @@ RULE = ("random registration tables (<=4 routers, <=6 names, <=3 queues, overrid
 ASSUMPTIONS = ["Redis and RabbitMQ are wire-level fakes (RabbitMQ: requeue returns a message to its original position)", "virtual time",
                "own messages behind foreign ones must be executed within 20 s + 1 s per message of virtual time"]
 EVAL_COUNTER = "jobs_judged"
-REQUIRED = ["jobs_judged", "own_executed", "foreign_left_alone", "overrides_across_queues", "two_worker_runs", "tables_with_bystander_workers", "crowded_queues", "pipeline_runs"]
+REQUIRED = ["jobs_judged", "own_executed", "foreign_left_alone", "overrides_across_queues", "two_worker_runs", "tables_with_bystander_workers", "crowded_queues", "pipeline_runs", "same_instant_runs"]
 CASE_TIMEOUT = 150
 
 NAMES = ["alpha", "alpha2", "al", "beta", "gamma", "delta"]  # names that are prefixes of each other: topic filters must match whole names
@@ -51,6 +51,9 @@ def gen_cases(tier, seed):
         for i in range({"quick": 3, "thorough": 12}[tier]):
             cases.append({"type": "two", "chain": True, "kind": kind, "n": rnd.choice([1, 2, 3]), "tl": rnd.choice([1, 3, 1000]), "seed": rnd.randrange(10**6),
                           "latency": None if kind == "mem" else rnd.choice([None, 0.002]), "lag": rnd.choice([0.0505, 0.2, 1.3])})
+        for i in range({"quick": 2, "thorough": 8}[tier]):
+            cases.append({"type": "two", "same_due": True, "kind": kind, "n": rnd.choice([2, 4, 7]), "tl": rnd.choice([1, 3, 1000]), "seed": rnd.randrange(10**6),
+                          "latency": None if kind == "mem" else rnd.choice([None, 0.002])})
         for i in range({"quick": 4, "thorough": 30}[tier]):
             cases.append({"type": "two", "kind": kind, "n": rnd.choice([6, 14]), "tl": rnd.choice([1, 3, 1000]), "seed": rnd.randrange(10**6),
                           "latency": None if kind == "mem" else rnd.choice([None, 0.002])})
@@ -200,13 +203,22 @@ async def two_scenario(loop, case, out, stats, fps, samples):
         from repid import Job, Worker
 
         jobs = {}
+        from datetime import datetime as _dt
+
+        same_due_at = _dt.now() + timedelta(seconds=0.8)
+        if case.get("same_due"):
+            stats["same_instant_runs"] += 1
         for i in range(case["n"]):
-            name = rnd.choice(["alpha", "beta"]) if not chain else "beta"
+            name = (rnd.choice(["alpha", "beta"]) if not case.get("same_due") else ["alpha", "beta"][i % 2]) if not chain else "beta"
             id_ = f"j{i:03d}"
             jobs[id_] = name
             if chain:
                 jobs[id_ + "-f"] = "alpha"  # the follow-up its actor will enqueue
-            await Job(name, id_=id_, queue="shared", args={"script": {"do": "ok", "d": 0.02}}, store_result=False, use_args_bucketer=False, _connection=w.conn).enqueue()
+            kwj = {}
+            if case.get("same_due"):
+                # every job is deferred to the very same instant (one datetime object's worth): batch imports, cron lines
+                kwj["deferred_until"] = same_due_at
+            await Job(name, id_=id_, queue="shared", args={"script": {"do": "ok", "d": 0.02}}, store_result=False, use_args_bucketer=False, _connection=w.conn, **kwj).enqueue()
         sig = __import__("signal").SIGUSR1
         wk1 = Worker(routers=[r1], tasks_limit=case["tl"], graceful_shutdown_time=5.0, handle_signals=[sig], _connection=w.conn)
         wk2 = Worker(routers=[r2], tasks_limit=case["tl"], graceful_shutdown_time=5.0, handle_signals=[], _connection=conn2)
